@@ -93,9 +93,9 @@ func ruleSeenKey(r *core.Reporter) {
 			switch {
 			case c.Call.IsInvoke() && c.Call.Method.Name() == "Write" && strings.Contains(c.Call.Value.Type().String(), "hash."):
 				writes = append(writes, c)
-			case ir.IsCallTo(c, pkgSeen+".isSeen"):
+			case isSeenHelper(p, c, "isSeen"):
 				isSeens = append(isSeens, c)
-			case ir.IsCallTo(c, pkgSeen+".seen"):
+			case isSeenHelper(p, c, "seen"):
 				seens = append(seens, c)
 			}
 		})
@@ -104,10 +104,10 @@ func ruleSeenKey(r *core.Reporter) {
 		} else {
 			// hashed text = <item>.GetURL().String()
 			chain, _, ok := accessorChain(stringSource(writes[0].Call.Args[0]))
-			key := isSeens[0].Call.Args[0]
+			key := seenArgs(isSeens[0])[0]
 			same := true
 			for _, s := range seens {
-				if s.Call.Args[0] != key {
+				if seenArgs(s)[0] != key {
 					same = false
 				}
 			}
@@ -232,7 +232,7 @@ func ruleSeenOnlyIfFound(r *core.Reporter) {
 		var isSeen *ssa.Call
 		var marks []ssa.Instruction
 		allInstrs(lf, func(in ssa.Instruction) {
-			if c, ok := in.(*ssa.Call); ok && ir.IsCallTo(c, pkgSeen+".isSeen") {
+			if c, ok := in.(*ssa.Call); ok && isSeenHelper(p, c, "isSeen") {
 				isSeen = c
 			}
 			if _, v, ok := setStatusConst(in); ok && v == states["ItemSeen"] {
@@ -269,7 +269,8 @@ func ruleSeenOnlyIfFound(r *core.Reporter) {
 					return ok && v == states["ItemSeen"]
 				}
 				isRecord := func(in ssa.Instruction) bool {
-					return ir.IsPlainCallTo(in, pkgSeen+".seen") && ir.AsCall(in).Args[0] == isSeen.Call.Args[0]
+					c, isC := in.(*ssa.Call)
+					return isC && isSeenHelper(p, c, "seen") && seenArgs(c)[0] == seenArgs(isSeen)[0]
 				}
 				// every path after the query either marks the item seen or records the URL
 				res := ir.Reach([]ir.Pt{ir.After(isSeen)}, ir.Opts{Stop: func(in ssa.Instruction) bool { return in == hdr || isMark(in) || isRecord(in) }})
@@ -285,7 +286,30 @@ func ruleSeenOnlyIfFound(r *core.Reporter) {
 					if !isRecord(in) {
 						return
 					}
-					if s, ok := ir.ConstString(ir.AsCall(in).Args[1]); ok && s == "seed" {
+					typ := seenArgs(in.(*ssa.Call))[1]
+					isPromo := false
+					if s, ok := ir.ConstString(typ); ok && s == "seed" {
+						isPromo = true
+					} else {
+						// merged with the first-time branch: `if !found || (foundType == "asset" && URLType == "seed") { seen(hash, URLType) }`
+						for _, ii := range ir.Ifs(lf) {
+							a := ii.Atom
+							if a.V != nil || a.Op != token.EQL {
+								continue
+							}
+							x, y := a.X, a.Y
+							if _, isC := x.(*ssa.Const); isC {
+								x, y = y, x
+							}
+							if sv, okc := ir.ConstString(y); okc && sv == "seed" && ir.SameValue(x, typ) {
+								from := ir.EdgePt(ii.If.Block(), ii.EdgeWhen(true))
+								if ir.Reach([]ir.Pt{from}, ir.Opts{Stop: func(z ssa.Instruction) bool { return z == hdr }}).Reached[in] {
+									isPromo = true
+								}
+							}
+						}
+					}
+					if isPromo {
 						nPromo++
 						rs := ir.Reach([]ir.Pt{ir.After(in)}, ir.Opts{Stop: func(x ssa.Instruction) bool { return x == hdr }})
 						for x := range rs.Reached {
@@ -1044,4 +1068,22 @@ func classifyPiece(v ssa.Value, seen map[ssa.Value]bool) (fromSplit, raw bool) {
 		return false, false
 	}
 	return false, false
+}
+
+// isSeenHelper: c calls the seencheck helper known on the reference tree as function `name` (isSeen / seen), under
+// whatever form it has today (a function ↔ method conversion is followed through the alias table).
+func isSeenHelper(p *core.Program, c *ssa.Call, name string) bool {
+	if ir.IsCallTo(c, pkgSeen+"."+name) {
+		return true
+	}
+	fn := p.Func(rel(pkgSeen), name)
+	return fn != nil && c.Call.StaticCallee() == fn
+}
+
+// seenArgs: the helper's arguments without a receiver.
+func seenArgs(c *ssa.Call) []ssa.Value {
+	if callee := c.Call.StaticCallee(); callee != nil && callee.Signature.Recv() != nil && len(c.Call.Args) > 0 {
+		return c.Call.Args[1:]
+	}
+	return c.Call.Args
 }
